@@ -271,3 +271,20 @@ package blob
 //@   havoc $RetrieveFailed $NDOther
 //@   callpre Service).retrieve: $arg2 == header.Height() && $arg3 == namespace
 //@   ensures err == nil ==> !$RetrieveFailed && !$NDOther
+
+// C12: commitment proofs. A proof is handed out only if this very call built it (ProveCommitment succeeded:
+// $Proved) - from the square fetched for the header of the requested height, for the requested namespace,
+// over the shares of the blob found at that height under the requested commitment. Nothing remembered
+// from an earlier call (another height may hold the same blob under the same commitment) is answered.
+//@ extern local github.com/celestiaorg/celestia-node/blob.ProveCommitment
+//@   effect $Proved := err == nil
+//@ func (*Service).GetCommitmentProof
+//@   property C12
+//@   noframe
+//@   requires s != nil && !$Proved
+//@   havoc $Proved $NDOther $RetrieveFailed $Fetched $FetchErr
+//@   param .headerGetter: ensures $result1 == nil ==> $result0 != nil && $result0.DAH != nil
+//@   callpre Service).Get: $arg2 == height && $arg3 == namespace && $arg4 == shareCommitment
+//@   callpre Getter).GetEDS: $arg2 == header
+//@   callpre blob.ProveCommitment: $arg0 == eds && $arg1 == namespace && $arg2 == blobShares
+//@   ensures err == nil ==> $Proved
